@@ -24,7 +24,7 @@ func RunMeth(c *core.Ctx) {
 			got := map[string]string{}
 			for _, e := range m.MethodsLit.Elts {
 				if kv, ok := e.(*ast.KeyValueExpr); ok {
-					got[types.ExprString(kv.Key)] = types.ExprString(kv.Value)
+					got[types.ExprString(kv.Key)] = qualExpr(g.Info, kv.Value)
 				}
 			}
 			var bad []string
